@@ -1,11 +1,400 @@
-(* Props/C13.v -- property C13 (provisional instance; the general theorems are being added) *)
-From Coq Require Import NArith ZArith QArith List.
-From RP Require Import Model.Kmeans.
+(* Props/C13.v -- property C13: one k-means step (Model/Kmeans.v) assigns every point to a nearest
+   centroid (the first among equally near ones), merges every point into exactly one centroid,
+   conserves the samples, aligns the lookup with the points, and produces a symmetric, normalised
+   metric with pairwise distinct keys.
+   Statements use only Base/ Model/ Gen/ Spec/ definitions; proofs live in Proofs/.
+
+   The theorems are stated for an arbitrary carrier F whose comparison [flt] is a STRICT WEAK
+   ORDER (Spec/SpecKmeans.v).  This is weaker than the strict total order asked for
+   (C13_strict_total_is_weak), and it is the hypothesis the non-NaN floats satisfy: +0.0 and -0.0
+   are different values, neither below the other.  The [_Q] theorems are the closed instances
+   over the rationals ([flt] = [Qltb], i.e. [<]). *)
+From Coq Require Import Arith NArith ZArith List Bool QArith Permutation.
+From RP Require Import Base.Bits Model.Codec Model.Kmeans Spec.SpecKmeans.
+From RP Require Proofs.C13_Neighborhood Proofs.C13_Next Proofs.C13_Lookup Proofs.C13_Metric
+                Proofs.C13_Q Proofs.C13_Examples.
 Import ListNotations.
-(* three points, two centroids, distances as rationals: the first of two equally near centroids wins *)
-Definition lt (a b : Q) := Qle_bool a b && negb (Qeq_bool a b).
-Theorem C13_instance :
-  next_step Q lt 2 [[(1, 2)]; [(1, 1); (2, 3)]; [(2, 1)]]%N [[Some (1#2); Some (1#2)]; [Some (3#4); Some (1#4)]; [Some 0; Some 1]]%Q
-  = Some [[(1, 2); (2, 1)]; [(1, 1); (2, 3)]]%N.
-Proof. vm_compute. reflexivity. Qed.
-Print Assumptions C13_instance.
+Close Scope Q_scope.
+
+(* ---------- 0. the order ---------- *)
+Theorem C13_strict_total_is_weak : forall (F : Type) (flt : F -> F -> bool),
+  strict_total_order flt -> strict_weak_order flt.
+Proof. exact C13_Neighborhood.strict_total_is_weak. Qed.
+Print Assumptions C13_strict_total_is_weak.
+Example C13_order_hyp : strict_total_order N.ltb.
+Proof. exact C13_Examples.ex_Nltb_total. Qed.
+
+Theorem C13_Q_order : strict_weak_order Qltb.
+Proof. exact C13_Q.Qltb_swo. Qed.
+Print Assumptions C13_Q_order.
+Example C13_Q_order_not_total : ~ strict_total_order Qltb.
+Proof. exact C13_Examples.ex_Qltb_not_total. Qed.
+
+(* ---------- 1. neighborhood ---------- *)
+(* a nearest centroid, and the first among the equally near ones *)
+Theorem C13_neighborhood_nearest : forall (F : Type) (flt : F -> F -> bool),
+  strict_weak_order flt ->
+  forall column, ~ In None column -> column <> [] ->
+  exists j x, neighborhood F flt column = Some (j, x) /\
+              nth_error column j = Some (Some x) /\
+              (forall i y, nth_error column i = Some (Some y) -> flt y x = false) /\
+              (forall i y, (i < j)%nat -> nth_error column i = Some (Some y) -> flt x y = true).
+Proof. exact C13_Neighborhood.neighborhood_nearest. Qed.
+Print Assumptions C13_neighborhood_nearest.
+
+Theorem C13_neighborhood_nearest_Q : forall column : list (option Q),
+  ~ In None column -> column <> [] ->
+  exists j x, neighborhood_Q column = Some (j, x) /\
+              nth_error column j = Some (Some x) /\
+              (forall i y, nth_error column i = Some (Some y) -> (x <= y)%Q) /\
+              (forall i y, (i < j)%nat -> nth_error column i = Some (Some y) -> (x < y)%Q).
+Proof. exact C13_Q.neighborhood_nearest_Q. Qed.
+Print Assumptions C13_neighborhood_nearest_Q.
+Example C13_neighborhood_nearest_hyp :
+  ~ In None C13_Examples.col_tie /\ C13_Examples.col_tie <> [].
+Proof. exact C13_Examples.ex_col_tie_good. Qed.
+(* [Some (3/2); Some (1/2); Some (2/4); Some 1]: the tie 1/2 = 2/4 goes to the first centroid *)
+Example C13_neighborhood_tie : neighborhood_Q C13_Examples.col_tie = Some (1%nat, (1 # 2)%Q).
+Proof. exact C13_Examples.ex_tie. Qed.
+
+(* a NaN among the distances: the step aborts instead of mis-assigning (no hypothesis on flt) *)
+Theorem C13_neighborhood_nan : forall (F : Type) (flt : F -> F -> bool) column,
+  In None column -> neighborhood F flt column = None.
+Proof. exact C13_Neighborhood.neighborhood_nan. Qed.
+Print Assumptions C13_neighborhood_nan.
+
+Theorem C13_neighborhood_nan_Q : forall column : list (option Q),
+  In None column -> neighborhood_Q column = None.
+Proof. exact C13_Q.neighborhood_nan_Q. Qed.
+Print Assumptions C13_neighborhood_nan_Q.
+Example C13_neighborhood_nan_hyp : In None C13_Examples.col_nan.
+Proof. exact C13_Examples.ex_col_nan_bad. Qed.
+Example C13_neighborhood_nan_ex : neighborhood_Q C13_Examples.col_nan = None.
+Proof. exact C13_Examples.ex_nan. Qed.
+
+(* conversely, a result is produced only for a non-empty column without NaN *)
+Theorem C13_neighborhood_some_inv : forall (F : Type) (flt : F -> F -> bool) column r,
+  neighborhood F flt column = Some r -> ~ In None column /\ column <> [].
+Proof. exact C13_Neighborhood.neighborhood_some_inv. Qed.
+Print Assumptions C13_neighborhood_some_inv.
+
+(* ---------- 2. Histogram::absorb ---------- *)
+Theorem C13_absorb_count : forall a other acc,
+  count a (absorb acc other) = N.add (count a acc) (count a other).
+Proof. exact C13_Next.count_absorb. Qed.
+Print Assumptions C13_absorb_count.
+
+Theorem C13_absorb_mass : forall other acc, mass (absorb acc other) = N.add (mass acc) (mass other).
+Proof. exact C13_Next.mass_absorb. Qed.
+Print Assumptions C13_absorb_mass.
+
+Theorem C13_absorb_sorted : forall other acc, sorted_keys acc -> sorted_keys (absorb acc other).
+Proof. exact C13_Next.absorb_sorted. Qed.
+Print Assumptions C13_absorb_sorted.
+
+(* in a histogram with sorted keys, [count] is the value stored under the key *)
+Theorem C13_count_sorted : forall a c h, sorted_keys h -> In (a, c) h -> count a h = c.
+Proof. exact C13_Next.count_sorted_in. Qed.
+Print Assumptions C13_count_sorted.
+Example C13_sorted_hyp : sorted_keys [(1, 2); (5, 1)]%N /\ In (5, 1)%N [(1, 2); (5, 1)]%N.
+Proof. exact C13_Examples.ex_sorted. Qed.
+Example C13_absorb_ex :
+  absorb [(1, 2); (5, 1)]%N [(5, 3); (0, 7); (9, 1)]%N = [(0, 7); (1, 2); (5, 4); (9, 1)]%N.
+Proof. exact C13_Examples.ex_absorb. Qed.
+
+Theorem C13_mass_sum : forall h, mass h = sumN (map snd h).
+Proof. exact C13_Next.mass_sum. Qed.
+Print Assumptions C13_mass_sum.
+
+(* ---------- 3. Layer::next ---------- *)
+(* [members flt columns j] are the indices i, increasing, with [nearest flt (column i) = j] *)
+Theorem C13_members_spec : forall (F : Type) (flt : F -> F -> bool) (columns : list (list (option F))) j i,
+  In i (members flt columns j) <-> ((i < length columns)%nat /\ nearest flt (nth i columns []) = j).
+Proof. exact C13_Next.members_spec. Qed.
+Print Assumptions C13_members_spec.
+
+(* each point is merged into exactly one centroid, the nearest; slot j is the merge, in point
+   order, of exactly the points assigned to j *)
+Theorem C13_next_partition : forall (F : Type) (flt : F -> F -> bool),
+  strict_weak_order flt ->
+  forall k points columns,
+  length points = length columns -> (0 < k)%nat ->
+  (forall c, In c columns -> good_column k c) ->
+  exists cs, next_step F flt k points columns = Some cs /\ length cs = k /\
+    (forall i c, nth_error columns i = Some c ->
+       exists x, neighborhood F flt c = Some (nearest flt c, x) /\ (nearest flt c < k)%nat) /\
+    (forall j, nth j cs [] = absorb_all (map (fun i => nth i points []) (members flt columns j))).
+Proof. exact C13_Next.next_partition. Qed.
+Print Assumptions C13_next_partition.
+
+Theorem C13_next_partition_Q : forall k points (columns : list (list (option Q))),
+  length points = length columns -> (0 < k)%nat ->
+  (forall c, In c columns -> good_column k c) ->
+  exists cs, next_step_Q k points columns = Some cs /\ length cs = k /\
+    (forall i c, nth_error columns i = Some c ->
+       exists x, neighborhood_Q c = Some (nearest Qltb c, x) /\ (nearest Qltb c < k)%nat) /\
+    (forall j, nth j cs [] = absorb_all (map (fun i => nth i points []) (members Qltb columns j))).
+Proof. exact C13_Q.next_partition_Q. Qed.
+Print Assumptions C13_next_partition_Q.
+Example C13_next_hyp :
+  length C13_Examples.pts = length C13_Examples.cols /\ (0 < 2)%nat /\
+  (forall c, In c C13_Examples.cols -> good_column 2 c).
+Proof. exact C13_Examples.ex_next_hyp. Qed.
+Example C13_next_ex :
+  next_step_Q 2 C13_Examples.pts C13_Examples.cols = Some [[(1, 2); (5, 4)]; [(1, 1); (2, 2); (7, 5)]]%N.
+Proof. exact C13_Examples.ex_next. Qed.
+
+(* the new centroids together contain exactly the samples of all points *)
+Theorem C13_next_mass : forall (F : Type) (flt : F -> F -> bool),
+  strict_weak_order flt ->
+  forall k points columns,
+  length points = length columns -> (0 < k)%nat ->
+  (forall c, In c columns -> good_column k c) ->
+  exists cs, next_step F flt k points columns = Some cs /\
+    (forall a, sumN (map (count a) cs) = sumN (map (count a) points)) /\
+    sumN (map mass cs) = sumN (map mass points) /\
+    Forall sorted_keys cs.
+Proof. exact C13_Next.next_mass. Qed.
+Print Assumptions C13_next_mass.
+
+Theorem C13_next_mass_Q : forall k points (columns : list (list (option Q))),
+  length points = length columns -> (0 < k)%nat ->
+  (forall c, In c columns -> good_column k c) ->
+  exists cs, next_step_Q k points columns = Some cs /\
+    (forall a, sumN (map (count a) cs) = sumN (map (count a) points)) /\
+    sumN (map mass cs) = sumN (map mass points) /\
+    Forall sorted_keys cs.
+Proof. exact C13_Q.next_mass_Q. Qed.
+Print Assumptions C13_next_mass_Q.
+
+(* the same facts for ANY successful step (no hypothesis on the order or the columns) *)
+Theorem C13_next_some : forall (F : Type) (flt : F -> F -> bool) k points columns cs,
+  length points = length columns ->
+  next_step F flt k points columns = Some cs ->
+  length cs = k /\
+  (forall i c, nth_error columns i = Some c ->
+     exists x, neighborhood F flt c = Some (nearest flt c, x) /\ (nearest flt c < k)%nat) /\
+  (forall j, nth j cs [] = absorb_all (map (fun i => nth i points []) (members flt columns j))) /\
+  (forall a, sumN (map (count a) cs) = sumN (map (count a) points)) /\
+  sumN (map mass cs) = sumN (map mass points) /\
+  Forall sorted_keys cs.
+Proof. exact C13_Next.next_some_spec. Qed.
+Print Assumptions C13_next_some.
+
+(* a NaN (or an empty column) for any point aborts the whole step *)
+Theorem C13_next_nan : forall (F : Type) (flt : F -> F -> bool) k points columns i p c,
+  nth_error points i = Some p -> nth_error columns i = Some c ->
+  (In None c \/ c = []) ->
+  next_step F flt k points columns = None.
+Proof. exact C13_Next.next_nan. Qed.
+Print Assumptions C13_next_nan.
+Example C13_next_nan_ex : next_step_Q 2 C13_Examples.pts C13_Examples.cols_nan = None.
+Proof. exact C13_Examples.ex_next_nan. Qed.
+
+(* ---------- 4. Layer::lookup ---------- *)
+Theorem C13_lookup_aligned : forall (F : Type) (flt : F -> F -> bool) street classes columns l,
+  length classes = length columns ->
+  lookup_step F flt street classes columns = Some l ->
+  length l = length classes /\
+  (forall i o c, nth_error classes i = Some o -> nth_error columns i = Some c ->
+     exists x a, neighborhood F flt c = Some (nearest flt c, x) /\
+                 abs_make street (N.of_nat (nearest flt c)) = Some a /\
+                 nth_error l i = Some (o, abits a)).
+Proof. exact C13_Lookup.lookup_aligned. Qed.
+Print Assumptions C13_lookup_aligned.
+
+Theorem C13_lookup_aligned_Q : forall street classes (columns : list (list (option Q))) l,
+  length classes = length columns ->
+  lookup_step_Q street classes columns = Some l ->
+  length l = length classes /\
+  (forall i o c, nth_error classes i = Some o -> nth_error columns i = Some c ->
+     exists x a, neighborhood_Q c = Some (nearest Qltb c, x) /\
+                 abs_make street (N.of_nat (nearest Qltb c)) = Some a /\
+                 nth_error l i = Some (o, abits a)).
+Proof. exact C13_Q.lookup_aligned_Q. Qed.
+Print Assumptions C13_lookup_aligned_Q.
+Example C13_lookup_hyp :
+  length C13_Examples.cls = length C13_Examples.cols /\
+  exists l, lookup_step_Q 2 C13_Examples.cls C13_Examples.cols = Some l.
+Proof. exact C13_Examples.ex_lookup_hyp. Qed.
+
+(* the failure mode, stated: when the lengths differ the result silently has the shorter length
+   (and the entries that exist are still aligned: C13_lookup_spec) *)
+Theorem C13_lookup_truncates : forall (F : Type) (flt : F -> F -> bool) street classes columns l,
+  lookup_step F flt street classes columns = Some l ->
+  length l = Nat.min (length classes) (length columns).
+Proof. exact C13_Lookup.lookup_truncates. Qed.
+Print Assumptions C13_lookup_truncates.
+
+Theorem C13_lookup_truncates_Q : forall street classes (columns : list (list (option Q))) l,
+  lookup_step_Q street classes columns = Some l ->
+  length l = Nat.min (length classes) (length columns).
+Proof. exact C13_Q.lookup_truncates_Q. Qed.
+Print Assumptions C13_lookup_truncates_Q.
+Example C13_lookup_truncates_ex :
+  lookup_step_Q 2 (firstn 3 C13_Examples.cls) C13_Examples.cols =
+  Some [(mkObs 3 28, bucket_code 2 0); (mkObs 5 56, bucket_code 2 1); (mkObs 6 112, bucket_code 2 0)]%N.
+Proof. exact C13_Examples.ex_lookup_trunc. Qed.
+
+Theorem C13_lookup_spec : forall (F : Type) (flt : F -> F -> bool) street classes columns l,
+  lookup_step F flt street classes columns = Some l ->
+  length l = Nat.min (length classes) (length columns) /\
+  (forall i o c, nth_error classes i = Some o -> nth_error columns i = Some c ->
+     exists x a, neighborhood F flt c = Some (nearest flt c, x) /\
+                 abs_make street (N.of_nat (nearest flt c)) = Some a /\
+                 nth_error l i = Some (o, abits a)).
+Proof. exact C13_Lookup.lookup_spec. Qed.
+Print Assumptions C13_lookup_spec.
+
+Theorem C13_lookup_total : forall (F : Type) (flt : F -> F -> bool),
+  strict_weak_order flt ->
+  forall street classes columns,
+  (street <= 3)%N -> (forall c, In c columns -> ~ In None c /\ c <> []) ->
+  exists l, lookup_step F flt street classes columns = Some l.
+Proof. exact C13_Lookup.lookup_total. Qed.
+Print Assumptions C13_lookup_total.
+Example C13_lookup_total_hyp :
+  (2 <= 3)%N /\ (forall c, In c C13_Examples.cols -> ~ In None c /\ c <> []).
+Proof. exact C13_Examples.ex_lookup_total_hyp. Qed.
+
+Theorem C13_lookup_nan : forall (F : Type) (flt : F -> F -> bool) street classes columns i o c,
+  nth_error classes i = Some o -> nth_error columns i = Some c ->
+  (In None c \/ c = []) ->
+  lookup_step F flt street classes columns = None.
+Proof. exact C13_Lookup.lookup_nan. Qed.
+Print Assumptions C13_lookup_nan.
+Example C13_lookup_nan_ex : lookup_step_Q 2 C13_Examples.cls C13_Examples.cols_nan = None.
+Proof. exact C13_Examples.ex_lookup_nan. Qed.
+
+(* ---------- 5. Layer::metric / Metric::from ---------- *)
+(* k(k-1)/2 entries; the entry of the pair j < i sits at position i(i-1)/2 + j, has the key of the
+   two bucket codes and the value (dist i j + dist j i)/2 divided by the maximum
+   [metric_max] = fold of max over all symmetrised distances from MIN_POSITIVE; nothing else is in
+   the result.  No hypothesis on the arithmetic, the street or k. *)
+Theorem C13_metric_shape : forall (F : Type) (fadd fdiv : F -> F -> F) (fle : F -> F -> bool)
+    (two fminpos : F) street dist k m,
+  metric_step F fadd fdiv fle two fminpos street dist k = Some m ->
+  length m = (k * (k - 1) / 2)%nat /\
+  (forall i j, (j < i)%nat -> (i < k)%nat ->
+     nth_error m (tri_index i j) =
+     Some (pair_key (bucket_code street i) (bucket_code street j),
+           fdiv (sym F fadd fdiv two dist i j) (metric_max F fadd fdiv fle two fminpos dist k))) /\
+  (forall e, In e m -> exists i j, (j < i)%nat /\ (i < k)%nat /\
+     e = (pair_key (bucket_code street i) (bucket_code street j),
+          fdiv (sym F fadd fdiv two dist i j) (metric_max F fadd fdiv fle two fminpos dist k))).
+Proof. exact C13_Metric.metric_shape. Qed.
+Print Assumptions C13_metric_shape.
+
+(* the key serves both orders of the pair *)
+Theorem C13_pair_key_sym : forall a b, pair_key a b = pair_key b a.
+Proof. exact C13_Metric.pair_key_sym. Qed.
+Print Assumptions C13_pair_key_sym.
+
+Theorem C13_metric_total : forall (F : Type) (fadd fdiv : F -> F -> F) (fle : F -> F -> bool)
+    (two fminpos : F) street dist k,
+  (street <= 3)%N -> exists m, metric_step F fadd fdiv fle two fminpos street dist k = Some m.
+Proof. exact C13_Metric.metric_total. Qed.
+Print Assumptions C13_metric_total.
+Example C13_metric_bad_street_ex : metric_step_Q Q_MIN_POSITIVE 4 C13_Examples.d3 3 = None.
+Proof. exact C13_Examples.ex_metric_bad_street. Qed.
+
+Theorem C13_metric_shape_Q : forall fminpos street dist k m,
+  metric_step_Q fminpos street dist k = Some m ->
+  length m = (k * (k - 1) / 2)%nat /\
+  (forall i j, (j < i)%nat -> (i < k)%nat ->
+     nth_error m (tri_index i j) =
+     Some (pair_key (bucket_code street i) (bucket_code street j),
+           (sym_Q dist i j / metric_max_Q fminpos dist k)%Q)) /\
+  (forall e, In e m -> exists i j, (j < i)%nat /\ (i < k)%nat /\
+     e = (pair_key (bucket_code street i) (bucket_code street j),
+          (sym_Q dist i j / metric_max_Q fminpos dist k)%Q)).
+Proof. exact C13_Q.metric_shape_Q. Qed.
+Print Assumptions C13_metric_shape_Q.
+
+Theorem C13_sym_Q : forall dist i j,
+  (sym_Q dist i j == (dist i j + dist j i) / 2)%Q /\ (sym_Q dist i j == sym_Q dist j i)%Q.
+Proof. exact C13_Q.sym_Q_spec. Qed.
+Print Assumptions C13_sym_Q.
+
+(* over Q, for any positive MIN_POSITIVE: the divisor is the maximum of MIN_POSITIVE and the
+   symmetrised distances; with non-negative distances every value lies in [0, 1]; the value 1 is
+   attained as soon as one symmetrised distance reaches MIN_POSITIVE -- and NOT merely when one is
+   positive: if all are below MIN_POSITIVE all values are below 1 (C13_metric_tiny_ex) *)
+Theorem C13_metric_range_Q : forall fminpos street dist k m,
+  (0 < fminpos)%Q ->
+  metric_step_Q fminpos street dist k = Some m ->
+  ((fminpos <= metric_max_Q fminpos dist k)%Q /\
+   (forall i j, (j < i)%nat -> (i < k)%nat -> (sym_Q dist i j <= metric_max_Q fminpos dist k)%Q) /\
+   (metric_max_Q fminpos dist k = fminpos \/
+    exists i j, (j < i)%nat /\ (i < k)%nat /\ metric_max_Q fminpos dist k = sym_Q dist i j)) /\
+  ((forall i j, (i < k)%nat -> (j < k)%nat -> (0 <= dist i j)%Q) ->
+   forall e, In e m -> (0 <= snd e)%Q /\ (snd e <= 1)%Q) /\
+  ((exists i j, (j < i)%nat /\ (i < k)%nat /\ (fminpos <= sym_Q dist i j)%Q) ->
+   exists i j, (j < i)%nat /\ (i < k)%nat /\
+     exists v, nth_error m (tri_index i j) =
+                 Some (pair_key (bucket_code street i) (bucket_code street j), v) /\ (v == 1)%Q) /\
+  ((forall i j, (j < i)%nat -> (i < k)%nat -> (sym_Q dist i j < fminpos)%Q) ->
+   forall e, In e m -> (snd e < 1)%Q).
+Proof. exact C13_Q.metric_range_Q. Qed.
+Print Assumptions C13_metric_range_Q.
+Example C13_metric_hyp :
+  (0 < Q_MIN_POSITIVE)%Q /\ (exists m, metric_step_Q Q_MIN_POSITIVE 1 C13_Examples.d3 3 = Some m) /\
+  (forall i j, (i < 3)%nat -> (j < 3)%nat -> (0 <= C13_Examples.d3 i j)%Q) /\
+  (exists i j, (j < i)%nat /\ (i < 3)%nat /\ (Q_MIN_POSITIVE <= sym_Q C13_Examples.d3 i j)%Q).
+Proof. exact C13_Examples.ex_metric_hyp. Qed.
+Example C13_metric_ex :
+  option_map (map (fun e => (fst e, Qred (snd e))))
+             (metric_step_Q Q_MIN_POSITIVE 1 C13_Examples.d3 3) =
+  Some [(pair_key (bucket_code 1 1) (bucket_code 1 0), 1 # 4);
+        (pair_key (bucket_code 1 2) (bucket_code 1 0), 1 # 1);
+        (pair_key (bucket_code 1 2) (bucket_code 1 1), 1 # 2)]%Q.
+Proof. exact C13_Examples.ex_metric. Qed.
+Example C13_metric_tiny_ex :
+  option_map (map (fun e => (fst e, Qred (snd e))))
+             (metric_step_Q Q_MIN_POSITIVE 1 C13_Examples.dtiny 2) =
+  Some [(pair_key (bucket_code 1 1) (bucket_code 1 0), 1 # 2)]%Q.
+Proof. exact C13_Examples.ex_metric_tiny. Qed.
+
+(* ---------- 6. the keys of the metric ---------- *)
+(* for a learned street and at most its number of buckets, the keys are pairwise distinct and
+   non-zero (from C15_pair_keys) *)
+Theorem C13_metric_keys_distinct : forall (F : Type) (fadd fdiv : F -> F -> F) (fle : F -> F -> bool)
+    (two fminpos : F) street dist k m,
+  (1 <= street <= 3)%N -> (N.of_nat k <= street_k street)%N ->
+  metric_step F fadd fdiv fle two fminpos street dist k = Some m ->
+  NoDup (map fst m) /\ ~ In 0%N (map fst m).
+Proof. exact C13_Metric.metric_keys_distinct. Qed.
+Print Assumptions C13_metric_keys_distinct.
+
+Theorem C13_metric_keys_distinct_Q : forall fminpos street dist k m,
+  (1 <= street <= 3)%N -> (N.of_nat k <= street_k street)%N ->
+  metric_step_Q fminpos street dist k = Some m ->
+  NoDup (map fst m) /\ ~ In 0%N (map fst m).
+Proof. exact C13_Q.metric_keys_distinct_Q. Qed.
+Print Assumptions C13_metric_keys_distinct_Q.
+Example C13_metric_keys_hyp :
+  (1 <= 2 <= 3)%N /\ (N.of_nat 144 <= street_k 2)%N /\
+  exists m, metric_step_Q Q_MIN_POSITIVE 2 C13_Examples.d3 144 = Some m.
+Proof. exact C13_Examples.ex_keys_hyp. Qed.
+
+(* with all the buckets of the street, the keys are the pair keys of the street up to order *)
+Theorem C13_metric_keys_all : forall (F : Type) (fadd fdiv : F -> F -> F) (fle : F -> F -> bool)
+    (two fminpos : F) street dist m,
+  (1 <= street <= 3)%N ->
+  metric_step F fadd fdiv fle two fminpos street dist (N.to_nat (street_k street)) = Some m ->
+  Permutation (map fst m) (pairs_of (abs_all street)).
+Proof. exact C13_Metric.metric_keys_all. Qed.
+Print Assumptions C13_metric_keys_all.
+Example C13_metric_keys_all_hyp :
+  (1 <= 2 <= 3)%N /\
+  exists m, metric_step_Q Q_MIN_POSITIVE 2 C13_Examples.d3 (N.to_nat (street_k 2)) = Some m.
+Proof. exact C13_Examples.ex_keys_all_hyp. Qed.
+
+(* with fewer buckets, a sub-multiset of them *)
+Theorem C13_metric_keys_sub : forall (F : Type) (fadd fdiv : F -> F -> F) (fle : F -> F -> bool)
+    (two fminpos : F) street dist k m,
+  (1 <= street <= 3)%N -> (N.of_nat k <= street_k street)%N ->
+  metric_step F fadd fdiv fle two fminpos street dist k = Some m ->
+  exists rest, Permutation (map fst m ++ rest) (pairs_of (abs_all street)).
+Proof. exact C13_Metric.metric_keys_sub. Qed.
+Print Assumptions C13_metric_keys_sub.
